@@ -112,8 +112,8 @@ PROPERTIES = {
     "C14": {
         "modules": ["drivers", "met", "purity"], "level": "other", "floor": 90,
         "assumptions": COMMON, "trusted": [T["Z3"], T["MAP"]],
-        "explanation": "PROVED: run_bldfm_timeseries / run_bldfm_multitower by constructive loop invariants for symbolic numbers of steps and towers (results are the single runs in time order, keyed by tower in configuration order, one cache per series iff enabled); run_bldfm_parallel strategies 'towers' and 'time' under the Executor.map ordering contract, workers requested or configured, unknown strategy rejected, workers reset their inherited state. NOT under contract: strategy 'both' (flattened index arithmetic) and real scheduling (completion orders, worker counts, parent threads): BOUNDED runs with real pools (bounded/C14.py).",
-        "level_text": "Serial drivers and two of three strategies proved under the ordering contract; 'both' and real scheduling bounded.",
+        "explanation": "PROVED: run_bldfm_timeseries / run_bldfm_multitower by constructive loop invariants for symbolic numbers of steps and towers (results are the single runs in time order, keyed by tower in configuration order, one cache per series iff enabled); run_bldfm_parallel strategies 'towers' and 'time' under the Executor.map ordering contract, workers requested or configured, unknown strategy rejected, workers reset their inherited state. strategy 'both' through a row-structured list with ghost row offsets (off(t+1) = off(t) + n_time; all obligations linear). NOT decided by contracts: real scheduling (completion orders, worker counts, parent threads) is discharged by the assumed Executor.map ordering contract: BOUNDED runs with real pools, delays and adversarial completion orders (bounded/C14.py).",
+        "level_text": "Serial drivers and all three strategies proved under the ordering contract of Executor.map; real scheduling is exercised by the bounded stand-in.",
         "level_note": "Executor.map contract assumed; distinct tower names required.",
     },
     "C15": {
@@ -177,6 +177,8 @@ PROPERTIES.update({
     },
 })
 
+for _k, _p in PROPERTIES.items():
+    _p.setdefault("np_conformance", _k in ("C01", "C02", "C03", "C04", "C05", "C06", "C07", "C10", "C11", "C12", "C15", "C18", "C19", "C20"))
 for _p in PROPERTIES.values():
     _p.setdefault("technique", TECH)
     _p.setdefault("bounded", True)
